@@ -30,4 +30,6 @@ CLAIMS = {
   'Model theorems for all masks; implementation: direct vs converted bitwise, integrals vs stored bitwise incl. order, sym vs filter, with-faces route within tolerance.', 'KNOWN finding F2.'),
  'C16': claim('Lean 4 proof (hull in ball, neighbour within 2*distance, security radius, far generators irrelevant, subspace form) + correspondence against the exact farthest vertex and add-far experiments',
   'Set-level theorems for all inputs; implementation: safety radius >= 2*exact farthest vertex distance and >= every face neighbour distance; cell unchanged when generators are added outside the safety ball.', ''),
+ 'C19': claim('Lean 4 proof (defining equations of every exported helper over the reals, non-degenerate arguments) + the same reference definitions executed over Rat/Float against the real helpers',
+  'Theorems: intersection on all three planes and unique; projections on the plane / on both planes, along the normal / orthogonal to the line, idempotent; tetrahedron volume antisymmetric with the documented sign; triangle area absolute value, antisymmetry, sign convention; spheres through 2/3/4 points (3-point centre in their plane); extend = smallest sphere containing both; contains monotone. Correspondence: every helper on random and structured arguments, defining equations evaluated exactly on the implementation results, results compared with Ref.* over Rat within rounding.', ''),
 }
